@@ -66,10 +66,10 @@ func (c conf) key() string { return listsKey(model.RuleLists(c)) }
 // list whose file is faulty if f is not nil.
 func (r *runner) conf(f *listFault) conf {
 	l := model.RuleLists{User: r.user}
-	if f == nil || f.allow {
+	if r.blockOn && (f == nil || f.allow) {
 		l.Block = [][]string{r.sc.Block}
 	}
-	if f == nil || !f.allow {
+	if r.allowOn && (f == nil || !f.allow) {
 		l.Allow = [][]string{r.sc.Allow}
 	}
 	return conf(l)
